@@ -374,7 +374,7 @@ func stripTsig(msg []byte) ([]byte, *TSIG, error) {
 		return nil, nil, err
 	}
 
-	rr := new(TSIG)
+	var rr *TSIG
 	var extra RR
 	for i := 0; i < int(dh.Arcount); i++ {
 		tsigoff = off
